@@ -32,9 +32,29 @@ def run(ctx):
     for n, (d, f) in enumerate(semlib.cover_product(rng, [dbs, sets["fromsambon6"]], max(300, N[ctx.tier] // 15))):
         if not dbs[d]["l"]["rows"] or not dbs[d]["r"]["rows"]:
             continue
+        fr = sets["fromsambon6"][f]
+        if len(fr) == 3:
+            # a chain: the second ON is only looked at when the first join produced a row and z has one
+            pairs = any(lr[1]["v"] == rr[0]["v"] for lr in dbs[d]["l"]["rows"] for rr in dbs[d]["r"]["rows"])
+            if not dbs[d]["z"]["rows"] or (fr[1]["jt"] == "inner" and not pairs):
+                continue
         star = next(x for x in sets["lists6"] if x[0]["k"] == "star")
         q = dict(**{"from": sets["fromsambon6"][f]}, where=[], list=star, group=[], order=[], limit=-1, offset=-1, style=n % 8)
         cases.append(dict(db=dbs[d], q=q, _t=d))
+    # large joins (thousands of row pairs, where an engine may switch to another join method): keys repeated round-robin,
+    # so that equal keys are never neighbours in storage order; some parents without children, some children without parent
+    def cell(t, v=0, s=()):
+        return dict(t=t, v=v, s=list(s))
+    cols = {k: dbs[0][k]["cols"] for k in ("l", "r", "o", "z")}
+    two = [f for f in sets["froms6"] if len(f) == 2 and f[1]["tbl"] == "r" and len(f[1]["on"]) == 1 and len(f[1]["on"][0]) == 1]
+    for b in range(3 if ctx.quick() else 12):
+        nl, nr, mod = rng.randrange(60, 75), rng.randrange(64, 80), rng.choice([8, 9, 13])
+        big = dict(l=dict(cols=cols["l"], rows=[[cell("i", i + 1), cell("i", i % (mod + 2)), cell("b", i % 2)] for i in range(nl)]),
+                   r=dict(cols=cols["r"], rows=[[cell("i", j % mod), cell("s", 0, [97 + j % 3]), cell("i", 11 + j)] for j in range(nr)]),
+                   o=dict(cols=cols["o"], rows=[]), z=dict(cols=cols["z"], rows=[]))
+        for f in two:
+            star = next(x for x in sets["lists6"] if x[0]["k"] == "star")
+            cases.append(dict(db=big, q=dict(**{"from": f}, where=[], list=star, group=[], order=[], limit=-1, offset=-1, style=b % 8), _t=("big", b)))
     pool = vlib.WorkerPool(ctx, binary)
     try:
         semlib.execute(ctx, pool, cases, lambda c: c["_t"])
